@@ -170,7 +170,7 @@ Definition check_proof (sc : scope) (fr : frame) (pf : option (list string)) : b
   end.
 
 (* ---------------------------------------------------------------- walking the database *)
-Inductive wres := WFound (b : bool) | WCont (sc : scope) | WBad.
+Inductive wres := WFound (sc : scope) (fr : frame) (pf : option (list string)) | WCont (sc : scope) | WBad.
 
 Definition add_label (l : string) (e : lentry) (sc : scope) : scope :=
   {| s_consts := s_consts sc; s_vars := s_vars sc; s_hyps := s_hyps sc; s_dvs := s_dvs sc;
@@ -214,7 +214,7 @@ Fixpoint vstmt (target : string) (sc : scope) (s : stmt) : wres :=
   | SP l ts pf =>
       let e := pts ts in
       if expr_ok sc e then
-        if String.eqb l target then WFound (check_proof sc (make_frame sc e) pf)
+        if String.eqb l target then WFound sc (make_frame sc e) pf
         else WCont (add_label l (LAssert (make_frame sc e)) sc)
       else WBad
   | SB ss =>
@@ -234,7 +234,40 @@ Fixpoint vstmts (target : string) (sc : scope) (l : list stmt) : wres :=
   | a :: l' => match vstmt target sc a with WCont sc2 => vstmts target sc2 l' | r => r end
   end.
 
-(** the first [$p] labelled [lemma] is reached with every earlier statement well-declared, and its proof
-    checks *)
+(** the first [$p] labelled [lemma], reached with every earlier statement well-declared: the scope there,
+    its frame and its proof *)
+Definition vfind (lemma : string) (db : database) : option (scope * frame * option (list string)) :=
+  match vstmts lemma scope0 db with WFound sc fr pf => Some (sc, fr, pf) | _ => None end.
+
 Definition mm_verify (db : database) (lemma : string) : bool :=
-  match vstmts lemma scope0 db with WFound b => b | _ => false end.
+  match vfind lemma db with Some (sc, fr, pf) => check_proof sc fr pf | None => false end.
+
+(* ---------------------------------------------------------------- comparing two scopes (for C17 (3)) *)
+Definition hyp_eqb (a b : hyp) : bool :=
+  String.eqb (h_label a) (h_label b) && Bool.eqb (h_isf a) (h_isf b) && expr_eqb (h_expr a) (h_expr b).
+Definition spair_eqb (p q : string * string) : bool := String.eqb (fst p) (fst q) && String.eqb (snd p) (snd q).
+Definition frame_eqb (a b : frame) : bool :=
+  list_eqb hyp_eqb (f_hyps a) (f_hyps b) && list_eqb spair_eqb (f_dvs a) (f_dvs b) && expr_eqb (f_concl a) (f_concl b).
+Definition lentry_opt_eqb (a b : option lentry) : bool :=
+  match a, b with
+  | None, None => true
+  | Some (LHyp x), Some (LHyp y) => expr_eqb x y
+  | Some (LAssert x), Some (LAssert y) => frame_eqb x y
+  | _, _ => false
+  end.
+Definition proof_eqb (a b : option (list string)) : bool :=
+  match a, b with Some x, Some y => expr_eqb x y | None, None => true | _, _ => false end.
+
+(** [scope_agree db s lemma]: the lemma is found in both with the same frame and proof, every token of the
+    proof resolves to the same hypothesis / assertion frame, and the second scope restricts the first
+    (variables, and disjointness over the kept variables).  Executable; evaluated on every real slice. *)
+Definition scope_agree (db s : database) (lemma : string) : bool :=
+  match vfind lemma db, vfind lemma s with
+  | Some (sc, fr, pf), Some (sc', fr', pf') =>
+      frame_eqb fr' fr && proof_eqb pf' pf &&
+      forallb (fun x => lentry_opt_eqb (assoc_get x (s_labels sc')) (assoc_get x (s_labels sc))) (proof_toks pf) &&
+      forallb (fun v => mem v (s_vars sc)) (s_vars sc') &&
+      forallb (fun p => negb (mem (fst p) (s_vars sc') && mem (snd p) (s_vars sc'))
+                        || dv_in (s_dvs sc') (fst p) (snd p)) (s_dvs sc)
+  | _, _ => false
+  end.
